@@ -139,3 +139,55 @@ func HC14Bytes() {
 		}
 	}
 }
+
+// HC14Header: the FlexFEC-03 header as written on the wire for larger batches: header length
+// (20/24/32 bytes by which mask words are present), k-bits, and the masks read back from the
+// repair packet's own bytes name exactly the media indices m with m mod k == f.
+func HC14Header() {
+	grid := [8][2]int{{15, 1}, {16, 1}, {46, 2}, {47, 1}, {60, 46}, {60, 20}, {109, 108}, {109, 3}}
+	g := grid[vr.Concretize(vr.NondetInt(0, 7))]
+	n, k := g[0], g[1]
+	base := vr.NondetU16()
+	media := make([]rtp.Packet, n)
+	for i := 0; i < n; i++ {
+		media[i] = rtp.Packet{Header: rtp.Header{Version: 2, SequenceNumber: base + uint16(i), SSRC: 7}, Payload: []byte{byte(i)}}
+	}
+	enc := NewFlexEncoder03(115, 0xFEC)
+	fec := enc.EncodeFec(media, uint32(k))
+	vr.Assert(len(fec) == k, "one repair packet per FEC packet with coverage")
+	fs := [3]int{0, min(1, k-1), k - 1}
+	f := fs[vr.Concretize(vr.NondetInt(0, 2))]
+	p := fec[f].Payload
+	vr.Assert(len(p) >= 20, "base header present")
+	k1 := p[18]&0x80 != 0
+	mask1 := (uint16(p[18])<<8 | uint16(p[19])) & 0x7FFF
+	var mask2 uint32
+	var mask3 uint64
+	hs := 20
+	if !k1 {
+		vr.Assert(len(p) >= 24, "second mask word present when the first k-bit is clear")
+		k2 := p[20]&0x80 != 0
+		mask2 = (uint32(p[20])<<24 | uint32(p[21])<<16 | uint32(p[22])<<8 | uint32(p[23])) & 0x7FFFFFFF
+		hs = 24
+		if !k2 {
+			vr.Assert(len(p) >= 32, "third mask word present when the second k-bit is clear")
+			vr.Assert(p[24]&0x80 != 0, "last k-bit set")
+			for b := 0; b < 8; b++ {
+				mask3 = mask3<<8 | uint64(p[24+b])
+			}
+			mask3 &= 0x7FFFFFFFFFFFFFFF
+			hs = 32
+			vr.Cover("three mask words")
+		}
+	}
+	vr.Assert(len(p) == hs+1, "repair payload = header of the announced size + the longest protected payload")
+	for m := 0; m < 109; m++ {
+		vr.Assert(c14named(mask1, mask2, mask3, m) == (m < n && m%k == f), "wire masks name exactly the combined packets")
+	}
+	// the single protected payload byte of each named packet is XORed into the repair byte
+	var x byte
+	for m := f; m < n; m += k {
+		x ^= byte(m)
+	}
+	vr.Assert(p[hs] == x, "repair byte is the XOR of the protected payload bytes (not overwritten by the masks)")
+}
